@@ -16,6 +16,9 @@ mod psetbuild;
 mod psetcodec;
 mod psetmerge;
 mod psetview;
+mod pegout;
+mod fees;
+mod pegin;
 mod psetops;
 mod scalar;
 mod script;
@@ -57,6 +60,9 @@ fn main() {
         ("issuance", "json") => issuance::json_contract(rest, &mut out),
         ("checksum", "lfsr") => checksum::lfsr(rest, &mut out),
         ("checksum", "corrupt") => checksum::corrupt(rest, &mut out),
+        ("pegin", "replay") => pegin::replay(rest, &mut out),
+        ("fees", "replay") => fees::replay(rest, &mut out),
+        ("pegout", "replay") => pegout::replay(rest, &mut out),
         ("psetops", "record") => psetops::record(rest, &mut out),
         ("psetview", "locktime") => psetview::locktime(rest, &mut out),
         ("psetview", "history") => psetview::history(rest, &mut out),
